@@ -38,7 +38,7 @@ LEVEL_TEXT = (
 LEVEL_NOTE = "Trusts the dict/list membership model and the snapshot reader (public accessors only). Search, not proof."
 TECHNIQUE = "model-based stateful PBT: exhaustive small-scope histories + Hypothesis op-lists vs. an insertion-ordered membership model"
 
-OPS_W = ["ua"] * 3 + ["va"] * 3 + ["ur"] * 2 + ["vr"] * 2 + ["newv_u", "newu", "newu2"] + ["bulk_u"]
+OPS_W = ["ua"] * 3 + ["va"] * 3 + ["ur"] * 2 + ["vr"] * 2 + ["newv_u", "newu", "newu2", "newv_u2", "lawsnone"] + ["bulk_u"]
 
 
 def budget(tier):
